@@ -190,6 +190,22 @@ Theorem C03_range_view_wf : forall A (v v' : tview A) rs, view_wf v -> v_range v
               v_get v' idx = v_get v j.
 Proof. exact @range_wf. Qed.
 
+(* ... and so are TensorAccess (index_by) and TensorTranspose views in ANY dimension order: the
+   element at an index is the source's element at the coordinates matched by name (C01), i.e. a
+   walk that is not the source's storage order unless the order is the identity *)
+Theorem C03_access_view_wf : forall A (v v' : tview A) req, view_wf v ->
+  length req = length (v_shape v) -> v_access v req = Some v' ->
+  view_wf v' /\ v_shape v' = shape_by_name (v_shape v) req /\
+  forall idx, v_get v' idx = v_get v (coords_by_name (v_shape v) req idx).
+Proof. exact @access_wf. Qed.
+
+Theorem C03_transpose_view_wf : forall A (v v' : tview A) req, view_wf v ->
+  length req = length (v_shape v) -> v_transpose v req = Some v' ->
+  view_wf v' /\ names_of (v_shape v') = names_of (v_shape v) /\
+  lens_of (v_shape v') = lens_of (shape_by_name (v_shape v) req) /\
+  forall idx, v_get v' idx = v_get v (coords_by_name (v_shape v) req idx).
+Proof. exact @transpose_wf. Qed.
+
 (* non-vacuity: a 3x2 tensor accessed in the transposed order is a well-formed 2x3 view whose
    view order (10 30 50 20 40 60) differs from its storage order (10 20 30 40 50 60); adding it
    to a 2x3 tensor pairs the elements in view order; the transposed view times the 3x2 tensor
@@ -252,3 +268,5 @@ Print Assumptions C03_forms_agree_matmul.
 Print Assumptions C03_reverse_view_wf.
 Print Assumptions C03_rename_view_wf.
 Print Assumptions C03_range_view_wf.
+Print Assumptions C03_access_view_wf.
+Print Assumptions C03_transpose_view_wf.
